@@ -19,6 +19,9 @@ EXTENDS Integers, Sequences, FiniteSets, TLC
 VARIABLE cfg   \* static configuration of the current world (address table, switches)
 
 Bad     == -16777216     \* an amount that is not an exact in-range multiple of the scale (-2^24: sums of it cannot overflow TLC's integers)
+\* sums that may contain Bad: the result is Bad again ("unknown"), so repeated additions can never run out of TLC's 32-bit integers
+PAdd(a, b) == IF a <= -8388608 \/ b <= -8388608 THEN -16777216 ELSE a + b
+PNeg(a) == IF a <= -8388608 THEN -16777216 ELSE 0 - a
 HugeN   == -1            \* a number >= 2^30 that fits 64 bits
 WideN   == -2            \* a number wider than 8 bytes
 HugeGas == 1073741824
